@@ -517,6 +517,57 @@ struct Buf {
     }
 };
 
+// ---------------------------------------------------------------- fork_call (used by fault-enumeration harnesses)
+struct ForkOutcome {
+    bool exited  = false;
+    int code     = -1;
+    int sig      = 0;
+    bool timeout = false;
+};
+// runs f() in a forked child; the child leaves with status 5 when f returns normally
+template <typename F>
+inline ForkOutcome fork_call(F&& f, double timeout_s = 20.0)
+{
+    std::fflush(nullptr);
+    pid_t pid = ::fork();
+    if (pid < 0) {
+        std::perror("fork");
+        std::_Exit(2);
+    }
+    if (pid == 0) {
+        f();
+        std::fflush(nullptr);
+        std::_Exit(5);
+    }
+    timespec t0;
+    clock_gettime(CLOCK_MONOTONIC, &t0);
+    int status     = 0;
+    useconds_t nap = 50;
+    ForkOutcome o;
+    for (;;) {
+        pid_t r = ::waitpid(pid, &status, WNOHANG);
+        if (r == pid) { break; }
+        timespec t1;
+        clock_gettime(CLOCK_MONOTONIC, &t1);
+        double el = (double)(t1.tv_sec - t0.tv_sec) + 1e-9 * (double)(t1.tv_nsec - t0.tv_nsec);
+        if (el > timeout_s) {
+            ::kill(pid, SIGKILL);
+            ::waitpid(pid, &status, 0);
+            o.timeout = true;
+            return o;
+        }
+        ::usleep(nap);
+        if (nap < 2000) { nap *= 2; }
+    }
+    if (WIFEXITED(status)) {
+        o.exited = true;
+        o.code   = WEXITSTATUS(status);
+    } else if (WIFSIGNALED(status)) {
+        o.sig = WTERMSIG(status);
+    }
+    return o;
+}
+
 // ---------------------------------------------------------------- runner
 struct Spec {
     std::uint64_t n_enum    = 0;  // enumerated cases (deterministic, independent of seed)
